@@ -792,6 +792,7 @@ func (s *Netceptor) sendServiceAds() {
 	}
 	s.listenerLock.RUnlock()
 	for i := range ads {
+		verifhook.Yield("svcad.send", s.nodeID+"|"+ads[i].Service)
 		err := s.sendServiceAd(&ads[i])
 		if err != nil {
 			s.Logger.Error("Error sending service advertisement: %s\n", err)
